@@ -70,6 +70,8 @@ let covers e q = e.a0 <= q && q <= e.b2                      (* possibly taken a
 let def_covers e lo hi = e.a1 <= lo && hi <= e.b1           (* definitely owned throughout [lo, hi] *)
 let poss_meets e lo hi = e.a0 <= hi && lo <= e.b2
 
+(* stale_reads: the two Relaxed observers (borrowed_indices, is_locked) may report an older state *)
+let stale_reads = ref false
 let spec_uis cap is_pool progs rets final =
   let (eps, recs) = build false progs rets in
   let lock_pos = List.fold_left (fun acc r -> match r.op with Rel (true, _) when r.tag = 2 && r.pay = 1 && acc = inf -> r.p | _ -> acc) inf recs in
@@ -86,7 +88,8 @@ let spec_uis cap is_pool progs rets final =
           fail (Printf.sprintf "index %d handed out to thread %d while thread %d owns it" r.pay r.t e.th)) eps
       end else if r.tag = 0 && r.pay = 0 then begin
         let ok = ref false in
-        for q = r.start to r.p do
+        (* under stale reads the head word the verdict is based on may predate the call: any instant so far *)
+        for q = (if !stale_reads then 0 else r.start) to r.p do
           let taken = List.sort_uniq compare (List.filter_map (fun e -> if covers e q then Some e.idx else None) eps) in
           if List.length taken >= cap then ok := true
         done;
@@ -107,9 +110,9 @@ let spec_uis cap is_pool progs rets final =
       let lo = List.length (List.filter (fun e -> def_covers e r.p r.p) eps) in
       let hi = List.length (List.filter (fun e -> covers e r.p) eps) in
       if r.tag <> 3 then fail "unexpected borrowed_indices result"
-      else if lock_pos < r.p then (if r.pay <> 0 then fail "borrowed_indices <> 0 on a locked set")
-      else if r.pay < lo || r.pay > hi then fail (Printf.sprintf "thread %d: borrowed_indices = %d outside [%d, %d]" r.t r.pay lo hi)
-    | IsL -> if r.tag <> 4 || (r.pay = 1) <> (lock_pos < r.p) then fail (Printf.sprintf "thread %d: is_locked = %d inconsistent with lock history" r.t r.pay)
+      else if lock_pos < r.p then (if r.pay <> 0 && not !stale_reads then fail "borrowed_indices <> 0 on a locked set")
+      else if (not !stale_reads) && (r.pay < lo || r.pay > hi) then fail (Printf.sprintf "thread %d: borrowed_indices = %d outside [%d, %d]" r.t r.pay lo hi)
+    | IsL -> if r.tag <> 4 || ((not !stale_reads) && (r.pay = 1) <> (lock_pos < r.p)) || (!stale_reads && r.pay = 1 && not (lock_pos < r.p)) then fail (Printf.sprintf "thread %d: is_locked = %d inconsistent with lock history" r.t r.pay)
     | Rec _ -> ()) recs;
   (* quiescent final state: [borrowed; locked; drained free list ... terminal code] *)
   (match final with
@@ -293,6 +296,73 @@ let mk_sys toks =
           | Some m -> Some m
           | None -> (match !inv_bad with
                      | Some m when !model_agreed -> Some ("proved invariant false on a state the implementation reached (model followed the whole trace): " ^ m)
+                     | _ -> None)) }
+    end else if kind = "uisra" then begin
+      (* release/acquire view model of UniqueIndexSet against the real set run with injected stale
+         values of the head word: the staleness oracle is chosen from the value the implementation read *)
+      let conv = function Acq _ -> [UAcq] | Rel (lk, fr) -> [URel (mode lk, fr)] | Bor -> [UBorrowed] | IsL -> [UIsLocked] | Rec _ -> [] in
+      let progs = Array.map (fun l -> List.concat (List.map conv l)) aprogs in
+      let drain = List.init (capi + 2) (fun _ -> UAcq) in
+      let c = ref (uisra_init (n_of_int capi) distn [] (fun t -> let i = int_of_nat t in if i < nt then progs.(i) else if i = nt then drain else [])) in
+      let step_k t k = let (g, ls) = !c in uisra_step1 uisra_ords_code (nat_of_int t) (uisra_set_oracle g [n_of_int k], ls) in
+      let first_acc es = let rec f = function EAcc (_, _, _, k, _, _, rd, _, ok) :: _ -> Some (k, rd, ok) | _ :: r -> f r | [] -> None in f es in
+      let check () =
+        if !inv_bad = None then begin
+          let g = uisra_g (fst !c) in
+          if not (uis_ginv_b g) then inv_bad := Some (Printf.sprintf "global invariant false after model step %d" !nsteps)
+          else for t = 0 to nt - 1 do
+            if not (uis_linv_b g (nat_of_int t) (uisra_sc (snd !c (nat_of_int t)))) then inv_bad := Some (Printf.sprintf "thread %d invariant false after model step %d" t !nsteps)
+          done
+        end in
+      let rec step t =
+        match step_k t 0 with
+        | None -> None
+        | Some (c0', []) -> c := c0'; step t
+        | Some (c0', es0) ->
+          let stale_site = match first_acc es0 with Some (KLoad, _, _) -> true | Some (KCas, _, false) -> true | _ -> false in
+          let matches es = match first_acc es with Some (_, rd, _) -> u64_string_of_n rd = !observed_rd | None -> false in
+          let chosen =
+            if (not stale_site) || matches es0 then Some (c0', es0)
+            else begin
+              let found = ref None in
+              for k = 1 to 64 do
+                if !found = None then match step_k t k with Some (ck, esk) when matches esk -> found := Some (ck, esk) | _ -> ()
+              done;
+              !found
+            end in
+          (match chosen with
+           | Some (c', es) ->
+             c := c'; incr nsteps; check ();
+             if uisra_race_used (fst c') then raise (Failure "view model flags a racy used access under the code's ordering table");
+             Some es
+           | None -> c := c0'; incr nsteps; Some es0) in
+      let finished t =
+        let rec go cc = match uisra_step1 uisra_ords_code (nat_of_int t) cc with None -> true | Some (c', []) -> go c' | Some _ -> false in go !c in
+      { nthreads = nt; step; finished;
+        final_ok = (fun toks ->
+          model_agreed := true;
+          let g = uisra_g (fst !c) in
+          let w = g.uhead in
+          let b = hd_borrowed w in
+          let locked = (int_of_n b = 0xffffff) in
+          let codes = ref [] in
+          let continue_ = ref true in
+          while !continue_ do
+            match step_k nt 0 with
+            | None -> continue_ := false
+            | Some (c', es) -> c := c';
+              List.iter (function ERet r -> codes := u64_string_of_n r :: !codes; if int_of_n r land 7 = 0 then continue_ := false | _ -> ()) es
+          done;
+          let m = (if locked then "0" else u64_string_of_n b) :: (if locked then "1" else "0") :: List.rev !codes in
+          if m = toks then None else Some (Printf.sprintf "model final [%s] impl final [%s]" (sconcat m) (sconcat toks)));
+        spec = (fun rets final ->
+          stale_reads := true;
+          let r0 = spec_uis capi false aprogs rets final in
+          stale_reads := false;
+          match r0 with
+          | Some m -> Some m
+          | None -> (match !inv_bad with
+                     | Some m when !model_agreed -> Some ("proved invariant false on a state the implementation reached under stale reads (model followed the whole trace): " ^ m)
                      | _ -> None)) }
     end else if kind = "ruis" then begin
       let conv = function Acq d -> RAcq (n_of_int d) | Rel (lk, fr) -> RRel (mode lk, fr) | Bor -> RBorrowed | IsL -> RIsLocked | Rec (d, lk) -> RRecover (n_of_int d, mode lk) in
